@@ -281,7 +281,7 @@ def EventsQuiet : Prop :=
     ∀ (n id : Nat) (s : State) (args : List String),
       (evalEventArgs p n id params s).out = .ok args → (evalEventArgs p n id params s).st = s
 
-/-- default-argument expressions as the checker admits them: literals and field reads -/
+/-- default-argument expressions as the checker allows them: literals and field reads -/
 def SimpleArg : Expr → Bool
   | .intLit .. | .boolLit _ | .strLit _ | .nilLit | .var _ => true
   | .member false _ (.var _) _ => true
